@@ -1,5 +1,6 @@
 import IV.Model.Proto
 import IV.Model.BaseParsers
+import IV.Model.BaseParsersExt
 import IV.Gen.BadLines
 open IV IV.Proto IV.BaseParsers
 
@@ -89,6 +90,112 @@ def pTime : P Time := do
   let y ← pNat; let mo ← pNat; let d ← pNat; let tod ← pNat
   pure ⟨y, mo, d, tod⟩
 
+/-! round 10: argument checks, time_format, scanner histories, parser.invoke -/
+
+def pTermArg : P TermArg := do
+  let k ← nextF
+  match k with
+  | "1" => do let s ← pStr; pure (.ok (.one s))
+  | "L" => do let ws ← pList pStr; pure (.ok (.many ws))
+  | "N" => pure .none
+  | "B" => pure .bad
+  | _ => failure
+
+def pNumArg : P NumArg := do
+  let f ← nextF
+  if f = "N" then pure .none else if f = "B" then pure .bad
+  else match decInt f with | some i => pure (.int i) | none => failure
+
+def pFmtArg : P FmtArg := do
+  let k ← nextF
+  match k with
+  | "N" => pure .none
+  | "O" => pure .other
+  | "S" => do let f ← pStr; pure (.str f)
+  | "L" => do let fs ← pList pStr; pure (.many fs)
+  | _ => failure
+
+def pScanDef : P ScanDef := do
+  let key ← pStr
+  let k ← nextF
+  let kind : ScanKind ← (match k with
+    | "K" => do let num ← pNum; let rev ← pBool; pure (ScanKind.keep num rev)
+    | "L" => pure ScanKind.last
+    | "T" => pure ScanKind.token
+    | _ => failure)
+  let c ← pChk
+  let t ← pTerm
+  pure ⟨key, kind, t, c⟩
+
+/-- one operation of a scanner history (glue: the lazy objects are numbered in creation order) -/
+inductive HOp
+  | op (o : Op)
+  | lazyNew (c : Nat) (lines : List Line)
+  | lazyKey (obj : Nat) (k : Str)
+  | lazyAll (obj : Nat)
+
+def pHOp : P HOp := do
+  let k ← nextF
+  match k with
+  | "C" => do let c ← pNat; pure (.op (.newClass c))
+  | "R" => do let c ← pNat; let d ← pScanDef; pure (.op (.reg c d))
+  | "B" => do let c ← pNat; let ls ← pList pStr; pure (.op (.build c ls))
+  | "Z" => do let c ← pNat; let ls ← pList pStr; pure (.lazyNew c ls)
+  | "K" => do let o ← pNat; let key ← pStr; pure (.lazyKey o key)
+  | "A" => do let o ← pNat; pure (.lazyAll o)
+  | _ => failure
+
+def showAttr : AttrVal → String
+  | .lines ls => "L(" ++ ",".intercalate (ls.map encStr) ++ ")"
+  | .last none => "D(~)"
+  | .last (some l) => "D(" ++ encStr l ++ ")"
+  | .flag b => if b then "F1" else "F0"
+
+def showAttrs (a : List (Str × AttrVal)) : String :=
+  "A[" ++ ";".intercalate (a.map (fun kv => encStr kv.1 ++ "=" ++ showAttr kv.2)) ++ "]"
+
+def showOpOut : OpOut → String
+  | .created => "created"
+  | .registered => "registered"
+  | .dupKey => "VE"
+  | .typeError => "TE"
+  | .attrs a => showAttrs a
+
+/-- the lazy objects: (class, state); `none` once a do_scan raised (the harness stops using the object) -/
+def runHist : World → List (Nat × Option LazyObj) → List HOp → List String
+  | _, _, [] => []
+  | w, objs, .op o :: rest => let r := step w o; showOpOut r.2 :: runHist r.1 objs rest
+  | w, objs, .lazyNew c ls :: rest => "lazy" :: runHist w (objs ++ [(c, some ⟨ls, [], []⟩)]) rest
+  | w, objs, .lazyKey i k :: rest =>
+    match objs[i]? with
+    | some (c, some o) =>
+      (match doScan (w c) o (some k) with
+       | some o' => showAttrs o'.attrs :: runHist w (objs.set i (c, some o')) rest
+       | none => "TE" :: runHist w (objs.set i (c, none)) rest)
+    | _ => "dead" :: runHist w objs rest
+  | w, objs, .lazyAll i :: rest =>
+    match objs[i]? with
+    | some (c, some o) =>
+      (match doScan (w c) o none with
+       | some o' => showAttrs o'.attrs :: runHist w (objs.set i (c, some o')) rest
+       | none => "TE" :: runHist w (objs.set i (c, none)) rest)
+    | _ => "dead" :: runHist w objs rest
+
+def pBuilt : P (Built Nat) := do
+  let k ← nextF
+  match k with
+  | "O" => do let i ← pNat; pure (.obj i)
+  | "C" => pure .contentError
+  | "S" => pure .skip
+  | "F" => pure .failed
+  | _ => failure
+
+def showInvoked : Invoked Nat → String
+  | .value v => s!"V\t{v}"
+  | .values vs => "VS\t" ++ "\t".intercalate (vs.map toString)
+  | .skipped => "NONE"
+  | .raised => "NONE"
+
 def run (p : P String) (fs : List String) : String :=
   match p fs with
   | some (out, []) => out
@@ -152,6 +259,48 @@ def handle (fs : List String) : String :=
         match resolve false thr r with
         | none => pure "VE"
         | some t => pure s!"{t.year},{t.month},{t.day},{t.tod}") rest
+  | "getpy" :: rest => run (do
+      let c ← pChk; let num ← pNumArg; let rev ← pBool; let t ← pTermArg
+      let lines ← pList pStr
+      match getPy t c num rev lines with
+      | .typeError => pure "TE"
+      | .ok r => pure s!"OK\t{showLines r}") rest
+  | "haspy" :: rest => run (do
+      let t ← pTermArg
+      let lines ← pList pStr
+      match containsPy t lines with
+      | .typeError => pure "TE"
+      | .ok b => pure (if b then "1" else "0")) rest
+  | "afterf" :: rest => run (do
+      let fmt ← pFmtArg
+      let thr ← pTime
+      let s ← pOptTerm
+      let tagged ← pList (do let l ← pStr; let st ← pStamp; pure (l, st))
+      let stamp : Line → Option RawStamp := fun l =>
+        match tagged.find? (fun e => e.1 = l) with | some (_, st) => st | none => none
+      match getAfterF fmt stamp thr s (tagged.map (·.1)) with
+      | .runtimeError => pure "RE"
+      | .parseError => pure "PE"
+      | .res .typeError => pure "TE"
+      | .res .valueError => pure "VE"
+      | .res (.ok r) => pure s!"OK\t{showLines r}") rest
+  | "fmt" :: rest => run (do
+      let fmt ← pFmtArg
+      match fmtCheck fmt with
+      | .error .runtime => pure "RE"
+      | .error .parse => pure "PE"
+      | .ok hy => pure (if hy then "Y1" else "Y0")) rest
+  | "scanhist" :: rest => run (do
+      let ops ← pList pHOp
+      pure ("\t".intercalate (runHist emptyWorld [] ops))) rest
+  | "invoke" :: rest => run (do
+      let many ← pBool
+      let coe ← pBool
+      let bs ← pList pBuilt
+      if many then pure (showInvoked (invokeMany coe bs))
+      else match bs with
+        | [b] => pure (showInvoked (invokeOne b))
+        | _ => failure) rest
   | "lower" :: rest => run (do let s ← pStr; pure (encStr (asciiLower s))) rest
   | "strip" :: rest => run (do let s ← pStr; pure (encStr (strip s))) rest
   | "in" :: rest => run (do let a ← pStr; let b ← pStr; pure (if contains a b then "1" else "0")) rest
